@@ -197,7 +197,11 @@ def run_case(case):
             ae.add_scu(svc)
         store_in_file = ae.store_in_file
         get_file = ae.get_file
-    contexts = {pc: asceprovider.PContextDef(pc, uid.UID(sop), uid.UID(ts)), 7: asceprovider.PContextDef(7, uid.UID(FIND), uid.UID(IMPLICIT))}
+    # (the same abstract syntax is also accepted on a later context with another transfer syntax, as peers that propose one
+    # context per transfer syntax get it)
+    other_ts = BIGEND if ts != BIGEND else IMPLICIT
+    contexts = {pc: asceprovider.PContextDef(pc, uid.UID(sop), uid.UID(ts)), 7: asceprovider.PContextDef(7, uid.UID(FIND), uid.UID(IMPLICIT)),
+                9: asceprovider.PContextDef(9, uid.UID(sop), uid.UID(other_ts))}
     ncomp = 0
     keys = 0
     try:
